@@ -306,9 +306,13 @@ type InjectorFieldAccessStmt struct {
 }
 
 // Stmt generates: fieldVar := structVar.FieldName (or = when predeclared in async builds)
-func (stmt *InjectorFieldAccessStmt) Stmt(varPool *VarPool, _ *Injector, _ func(errExpr ast.Expr) []ast.Stmt) ([]ast.Stmt, []string) {
-	// Determine if we need to use = instead of := (when variables are predeclared in async builds)
+func (stmt *InjectorFieldAccessStmt) Stmt(varPool *VarPool, injector *Injector, _ func(errExpr ast.Expr) []ast.Stmt) ([]ast.Stmt, []string) {
+	// Determine if we need to use = instead of := (when variables are predeclared in async builds).
+	// In an injector with goroutines every variable is declared up front, whether or not it has a channel.
 	useAssign := stmt.ReturnParam.WithChannel()
+	if injector != nil {
+		useAssign = hasChainStmts(injector)
+	}
 
 	tokenType := token.DEFINE
 	if useAssign {
